@@ -34,4 +34,13 @@ theorem writer_token_roundtrip_full_false : ¬ WriterTokenRoundtripFull := by
     have := h clc clcEnv {} p.1 p.2 hr
     simp [this] at hl
 
+/-- known finding `C02/closure-heap-exhausted`: 100 cycles open at once exhaust `heap = list(range(1, 100))` -/
+theorem allocator_total_full_false : ¬ AllocatorTotalFull := by
+  intro h
+  have hwf : cyclesWF [] [] ((List.range 100).map fun i => [i]) = true := by decide +kernel
+  have hp : ChythonModel.Proofs.C02.peakOk 99 [] ((List.range 100).map fun i => [i]) = false := by decide +kernel
+  obtain ⟨c, hh, hok⟩ := h _ hwf
+  rw [(heap_exhaustion_exact _ hwf).2 hp] at hok
+  cases hok
+
 end ChythonModel.Findings.C02
